@@ -1,1 +1,259 @@
-harnesses! {}
+//! C05 — planar area and ring orientation.
+//!
+//! Integer instantiation (i16, through the hook) for the shoelace kernel, winding and orient;
+//! f32 for the public `Area` impls (they require CoordFloat).  On the small grids every float
+//! operation is exact, so results are compared with `==` against the exact integer shoelace.
+use crate::gen::*;
+use crate::oracle::*;
+use crate::Src;
+use geo::orient::{Direction, Orient};
+use geo::winding_order::{Winding, WindingOrder};
+use geo::Area;
+use geo_types::{coord, Coord, Geometry, GeometryCollection, LineString, MultiPolygon, Polygon, Rect, Triangle};
+
+// ------------------------------------------------------------------ shoelace kernel (hook)
+
+pub fn ring_area_int3<S: Src>(s: &mut S, n: i8, off: i16) {
+    let (a, b, c) = (gp(s, n), gp(s, n), gp(s, n));
+    let o = |p: P| -> Coord<I> { coord! { x: p.0 + off, y: p.1 - off } };
+    let ring = LineString::new(vec![o(a), o(b), o(c), o(a)]);
+    let want = twice_area(&[a, b, c, a]);
+    assert!(geo::kani_hooks::twice_signed_ring_area(&ring) == want, "twice_signed_ring_area differs from the exact shoelace sum (3-ring)");
+    // not closed / too short => 0
+    let open = LineString::new(vec![o(a), o(b), o(c)]);
+    if a != c {
+        assert!(geo::kani_hooks::twice_signed_ring_area(&open) == 0, "open ring must have zero area");
+    }
+    let two = LineString::new(vec![o(a), o(a)]);
+    assert!(geo::kani_hooks::twice_signed_ring_area(&two) == 0, "2-coordinate ring must have zero area");
+    vcover!(want < 0, "clockwise ring");
+    vcover!(want == 0 && a != b && b != c, "collinear ring");
+    core::mem::forget(ring);
+    core::mem::forget(open);
+    core::mem::forget(two);
+}
+
+pub fn ring_area_int4<S: Src>(s: &mut S, n: i8, off: i16) {
+    let (a, b, c, d) = (gp(s, n), gp(s, n), gp(s, n), gp(s, n));
+    let o = |p: P| -> Coord<I> { coord! { x: p.0 + off, y: p.1 - off } };
+    let ring = LineString::new(vec![o(a), o(b), o(c), o(d), o(a)]);
+    let want = twice_area(&[a, b, c, d, a]);
+    assert!(geo::kani_hooks::twice_signed_ring_area(&ring) == want, "twice_signed_ring_area differs from the exact shoelace sum (4-ring)");
+    vcover!(want < 0, "clockwise ring");
+    vcover!(!ring_is_simple(&[a, b, c, d, a]) && want != 0, "self-intersecting ring (bow tie) with net area");
+    core::mem::forget(ring);
+}
+
+// ------------------------------------------------------------------ Area impls (f32)
+
+fn ring_f(pts: &[P], rev: bool) -> LineString<f32> {
+    let n = pts.len();
+    let mut v = Vec::with_capacity(n);
+    let mut i = 0;
+    while i < n {
+        v.push(cf(if rev { pts[n - 1 - i] } else { pts[i] }));
+        i += 1;
+    }
+    LineString::new(v)
+}
+
+/// 4-ring shell without holes
+pub fn poly_area_shell4<S: Src>(s: &mut S, n: i8) {
+    let (a, b, c, d) = (gp(s, n), gp(s, n), gp(s, n), gp(s, n));
+    let pts = [a, b, c, d, a];
+    let p = Polygon::new(ring_f(&pts, false), vec![]);
+    let want2 = twice_area(&pts) as f32;
+    let got = p.signed_area();
+    assert!(got * 2.0 == want2, "Polygon::signed_area differs from the exact shoelace area");
+    assert!(p.unsigned_area() == got.abs(), "unsigned_area is not |signed_area|");
+    assert!((got > 0.0) == (twice_area(&pts) > 0), "signed_area sign differs from the exterior's orientation");
+    vcover!(want2 < 0.0, "clockwise exterior");
+    core::mem::forget(p);
+}
+
+/// symbolic triangular shell, concrete-position hole(s) of symbolic direction
+pub fn poly_area_holes<S: Src>(s: &mut S, n: i8, nholes: usize) {
+    let (a, b, c) = (gp(s, n), gp(s, n), gp(s, n));
+    let shell = [a, b, c, a];
+    let h1: [P; 4] = [(0, 0), (1, 0), (0, 1), (0, 0)];
+    let h2: [P; 4] = [(-1, -1), (-1, -2), (-2, -1), (-1, -1)]; // clockwise as written
+    let (r1, r2) = (s.bool(), s.bool());
+    let hs = if nholes >= 2 { vec![ring_f(&h1, r1), ring_f(&h2, r2)] } else { vec![ring_f(&h1, r1)] };
+    let p = Polygon::new(ring_f(&shell, false), hs);
+    let se = twice_area(&shell);
+    let mut mag = se.abs() - twice_area(&h1).abs();
+    if nholes >= 2 {
+        mag -= twice_area(&h2).abs();
+    }
+    let want2 = if se < 0 { -mag } else { mag };
+    let got = p.signed_area();
+    assert!(got * 2.0 == want2 as f32, "signed_area is not (|exterior| - sum |holes|) with the exterior's sign");
+    assert!(p.unsigned_area() == got.abs(), "unsigned_area is not |signed_area|");
+    vcover!(se < 0 && r1, "clockwise exterior with a reversed hole");
+    if nholes >= 2 {
+        // as written h1 is counter-clockwise and h2 clockwise: equal flags = mixed winding
+        vcover!(r1 == r2, "two holes of opposite winding");
+        vcover!(r1 != r2, "two holes of the same winding");
+    }
+    core::mem::forget(p);
+}
+
+pub fn rect_triangle_area<S: Src>(s: &mut S, n: i8) {
+    let (a, b, c) = (gp(s, n), gp(s, n), gp(s, n));
+    let r = Rect::new(cf(a), cf(b));
+    let w = (a.0 - b.0).abs() * (a.1 - b.1).abs();
+    assert!(r.signed_area() == w as f32 && r.unsigned_area() == w as f32, "Rect area is not width*height");
+    let rp = r.to_polygon();
+    assert!(rp.signed_area() == r.signed_area(), "Rect area differs from the area of its polygon form");
+    let t = Triangle(cf(a), cf(b), cf(c));
+    let want2 = det(a, b, c) as f32;
+    assert!(t.signed_area() * 2.0 == want2, "Triangle::signed_area differs from the exact value");
+    assert!(t.unsigned_area() == t.signed_area().abs(), "Triangle unsigned_area");
+    let tp = t.to_polygon();
+    assert!(tp.signed_area() == t.signed_area(), "Triangle area differs from the area of its polygon form");
+    vcover!(want2 < 0.0, "clockwise triangle");
+    core::mem::forget(rp);
+    core::mem::forget(tp);
+}
+
+pub fn collection_area<S: Src>(s: &mut S, n: i8) {
+    let (a, b, c) = (gp(s, n), gp(s, n), gp(s, n));
+    let (d, e, f_) = (gp(s, n), gp(s, n), gp(s, n));
+    let p1 = Polygon::new(ring_f(&[a, b, c, a], false), vec![]);
+    let p2 = Polygon::new(ring_f(&[d, e, f_, d], false), vec![]);
+    let (s1, s2) = (p1.signed_area(), p2.signed_area());
+    let mp = MultiPolygon(vec![p1, p2]);
+    assert!(mp.signed_area() == s1 + s2, "MultiPolygon signed_area is not the sum of its members");
+    assert!(mp.unsigned_area() == s1.abs() + s2.abs(), "MultiPolygon unsigned_area is not the sum of its members' unsigned areas");
+    vcover!(s1 > 0.0 && s2 < 0.0, "members of opposite winding");
+    core::mem::forget(mp);
+}
+
+pub fn geometry_collection_area<S: Src>(s: &mut S, n: i8) {
+    let (a, b, c) = (gp(s, n), gp(s, n), gp(s, n));
+    let t = Triangle(cf(a), cf(b), cf(c));
+    let r = Rect::new(cf(a), cf(c));
+    let gc = GeometryCollection(vec![Geometry::Triangle(t), Geometry::Rect(r), Geometry::Point(geo_types::Point(cf(b)))]);
+    assert!(gc.signed_area() == t.signed_area() + r.signed_area(), "GeometryCollection signed_area is not the sum of its members");
+    assert!(gc.unsigned_area() == t.unsigned_area() + r.unsigned_area(), "GeometryCollection unsigned_area is not the sum of its members");
+    assert!(Geometry::Triangle(t).signed_area() == t.signed_area(), "Geometry wrapper changes the area");
+    core::mem::forget(gc);
+}
+
+// ------------------------------------------------------------------ winding_order / orient (i16)
+
+fn want_winding(a2: W) -> Option<WindingOrder> {
+    if a2 > 0 {
+        Some(WindingOrder::CounterClockwise)
+    } else if a2 < 0 {
+        Some(WindingOrder::Clockwise)
+    } else {
+        None
+    }
+}
+
+/// simple 3-rings, every start vertex (rotation by construction: a,b,c are symmetric), with an
+/// optional repeated consecutive point
+pub fn winding3<S: Src>(s: &mut S, n: i8) {
+    let (a, b, c) = (gp(s, n), gp(s, n), gp(s, n));
+    vassume!(orient(a, b, c) != 0);
+    let dup = s.bool();
+    let ring = if dup { ls_i(&[a, b, b, c, a]) } else { ls_i(&[a, b, c, a]) };
+    let w = ring.winding_order();
+    assert!(w == want_winding(twice_area(&[a, b, c, a])), "winding_order differs from the sign of the exact area (3-ring)");
+    assert!(ring.is_ccw() == (det(a, b, c) > 0) && ring.is_cw() == (det(a, b, c) < 0), "is_ccw / is_cw");
+    vcover!(dup && det(a, b, c) < 0, "repeated point, clockwise");
+    vcover!((c.0, c.1) < (a.0, a.1) && (c.0, c.1) < (b.0, b.1), "lexicographically least vertex is the last one before closing");
+    core::mem::forget(ring);
+}
+
+pub fn winding4<S: Src>(s: &mut S, n: i8) {
+    let (a, b, c, d) = (gp(s, n), gp(s, n), gp(s, n), gp(s, n));
+    let pts = [a, b, c, d, a];
+    vassume!(ring_is_simple(&pts));
+    let ring = ls_i(&pts);
+    let w = ring.winding_order();
+    assert!(w == want_winding(twice_area(&pts)), "winding_order differs from the sign of the exact area (simple 4-ring)");
+    vcover!(orient(a, b, c) * orient(b, c, d) < 0, "concave quadrilateral");
+    vcover!((d.0, d.1) < (a.0, a.1) && (d.0, d.1) < (b.0, b.1) && (d.0, d.1) < (c.0, c.1), "least vertex is the last one before closing");
+    vcover!(twice_area(&pts) < 0, "clockwise");
+    core::mem::forget(ring);
+}
+
+/// rings without area give None
+pub fn winding_degenerate<S: Src>(s: &mut S, n: i8) {
+    let (a, b) = (gp(s, n), gp(s, n));
+    let r1 = ls_i(&[a, b, a]);
+    assert!(r1.winding_order().is_none(), "3-coordinate ring has a winding order");
+    let r2 = ls_i(&[a, b, b, a]);
+    assert!(r2.winding_order().is_none(), "ring with two distinct points has a winding order");
+    let r3 = ls_i(&[a, a, a, a]);
+    assert!(r3.winding_order().is_none(), "single repeated point has a winding order");
+    let open = ls_i(&[a, b, (a.0 + 1, a.1), (b.0, b.1 + 1)]);
+    if a != (b.0, b.1 + 1) {
+        assert!(open.winding_order().is_none(), "open line string has a winding order");
+    }
+    core::mem::forget(r1);
+    core::mem::forget(r2);
+    core::mem::forget(r3);
+    core::mem::forget(open);
+}
+
+fn same_cyclic_dir(got: &LineString<I>, pts: &[P; 4], reversed: bool) -> bool {
+    // orient keeps the start vertex: the ring is the input or its reversal
+    let g = &got.0;
+    if g.len() != 4 {
+        return false;
+    }
+    if reversed {
+        g[0] == ci(pts[3]) && g[1] == ci(pts[2]) && g[2] == ci(pts[1]) && g[3] == ci(pts[0])
+    } else {
+        g[0] == ci(pts[0]) && g[1] == ci(pts[1]) && g[2] == ci(pts[2]) && g[3] == ci(pts[3])
+    }
+}
+
+/// triangle shell + triangle hole, each of symbolic direction; both requested directions
+pub fn orient_poly<S: Src>(s: &mut S, n: i8) {
+    let (a, b, c) = (gp(s, n), gp(s, n), gp(s, n));
+    let (d, e, f_) = (gp(s, n), gp(s, n), gp(s, n));
+    vassume!(orient(a, b, c) != 0 && orient(d, e, f_) != 0);
+    let (ext, hole) = ([a, b, c, a], [d, e, f_, d]);
+    let p = poly_i(&ext, &[&hole]);
+    let reversed = s.bool();
+    let o = p.orient(if reversed { Direction::Reversed } else { Direction::Default });
+    let ext_ccw = det(a, b, c) > 0;
+    let hole_ccw = det(d, e, f_) > 0;
+    // Default: exterior ccw, holes cw.  Reversed: the opposite.
+    let ext_must_flip = ext_ccw == reversed;
+    let hole_must_flip = hole_ccw != reversed;
+    assert!(o.interiors().len() == 1, "orient changed the number of holes");
+    assert!(same_cyclic_dir(o.exterior(), &ext, ext_must_flip), "orient: exterior is not the input ring in the requested direction");
+    assert!(same_cyclic_dir(&o.interiors()[0], &hole, hole_must_flip), "orient: hole is not the input ring in the requested direction");
+    vcover!(!ext_must_flip && hole_must_flip, "exterior already oriented, hole needs reversing");
+    vcover!(ext_must_flip && !hole_must_flip, "hole already oriented, exterior needs reversing");
+    vcover!(reversed, "Direction::Reversed");
+    core::mem::forget(p);
+    core::mem::forget(o);
+}
+
+harnesses! {
+    #[kani::unwind(6)] fn c05_ring_area_int3_g3(s) { ring_area_int3(s, 3, 0) }
+    #[kani::unwind(6)] fn c05_ring_area_int3_shift(s) { ring_area_int3(s, 3, 5000) }
+    #[kani::unwind(7)] fn c05_ring_area_int4_g2(s) { ring_area_int4(s, 2, 0) }
+    #[kani::unwind(7)] fn c05_ring_area_int4_shift(s) { ring_area_int4(s, 2, 5000) }
+    #[kani::unwind(7)] fn c05_poly_area_shell4_g2(s) { poly_area_shell4(s, 2) }
+    #[kani::unwind(6)] fn c05_poly_area_hole1_g2(s) { poly_area_holes(s, 2, 1) }
+    #[kani::unwind(6)] fn c05_poly_area_hole2_g1(s) { poly_area_holes(s, 1, 2) }
+    #[kani::unwind(7)] fn c05_rect_triangle_area_g2(s) { rect_triangle_area(s, 2) }
+    #[kani::unwind(6)] fn c05_multipolygon_area_g1(s) { collection_area(s, 1) }
+    #[kani::unwind(6)] fn c05_geometry_collection_area_g2(s) { geometry_collection_area(s, 2) }
+    #[kani::unwind(7)] fn c05_winding3_g3(s) { winding3(s, 3) }
+    #[kani::unwind(7)] fn c05_winding4_g2(s) { winding4(s, 2) }
+    #[kani::unwind(7)] fn c05_winding_degenerate(s) { winding_degenerate(s, 3) }
+    #[kani::unwind(7)] fn c05_orient_poly_g1(s) { orient_poly(s, 1) }
+    #[kani::unwind(7)] fn c05_orient_poly_g2(s) { orient_poly(s, 2) }
+    #[kani::unwind(6)] fn c05_sanity_must_fail(s) {
+        ring_area_int3(s, 2, 0);
+        assert!(false, "sanity twin reached its end");
+    }
+}
